@@ -1,6 +1,9 @@
 package zzh
 
 import (
+	"go/token"
+
+	"github.com/a14e/gogreement/src/annotations"
 	"github.com/a14e/gogreement/src/config"
 	"github.com/a14e/gogreement/src/zzverif/nd"
 )
@@ -94,4 +97,104 @@ func ZZCrossImmCtor() {
 		{fu, nd.LineOf(crossSrcU, "U-VAR"), "CTOR03", hasCtor},
 		{fu, nd.LineOf(crossSrcU, "U-NEW"), "CTOR02", hasCtor},
 	}, "cross: importing package")
+}
+
+// two packages generated from one template: every annotation sits at the same byte offset in both
+const crossSrcTmpl = `package «PKG»
+
+// @immutable
+// @constructor NewT
+type T struct {
+	F int
+	// @mutable
+	M int
+}
+
+func NewT() *T { return &T{} }
+
+// @testonly
+func Mock() int { return 1 }
+
+// @packageonly w
+func Internal() {}
+`
+
+const crossSrcTwo = `package u
+
+import (
+	"zzmod/g1"
+	"zzmod/g2"
+)
+
+func Use(a *g1.T, b *g2.T) {
+	a.F = 1 // G1-F
+	a.M = 2 // G1-M
+	b.F = 3 // G2-F
+	b.M = 4 // G2-M
+	_ = g1.T{} // G1-LIT
+	_ = g2.T{} // G2-LIT
+	_ = g1.Mock() // G1-MOCK
+	_ = g2.Mock() // G2-MOCK
+	g1.Internal() // G1-INT
+	g2.Internal() // G2-INT
+}
+`
+
+// PosCollapsed returns a copy of the annotations in which every recorded position is the same value — what an importer
+// sees when every package was parsed in a process (file set) of its own and the packages come from one template.
+func PosCollapsed(a *annotations.PackageAnnotations, pos token.Pos) *annotations.PackageAnnotations {
+	out := &annotations.PackageAnnotations{}
+	for _, x := range a.ImplementsAnnotations {
+		x.OnTypePos = pos
+		out.ImplementsAnnotations = append(out.ImplementsAnnotations, x)
+	}
+	for _, x := range a.ConstructorAnnotations {
+		x.OnTypePos = pos
+		out.ConstructorAnnotations = append(out.ConstructorAnnotations, x)
+	}
+	for _, x := range a.ImmutableAnnotations {
+		x.OnTypePos = pos
+		out.ImmutableAnnotations = append(out.ImmutableAnnotations, x)
+	}
+	for _, x := range a.TestonlyAnnotations {
+		x.Pos = pos
+		out.TestonlyAnnotations = append(out.TestonlyAnnotations, x)
+	}
+	for _, x := range a.MutableAnnotations {
+		x.Pos = pos
+		out.MutableAnnotations = append(out.MutableAnnotations, x)
+	}
+	for _, x := range a.PackageOnlyAnnotations {
+		x.Pos = pos
+		out.PackageOnlyAnnotations = append(out.PackageOnlyAnnotations, x)
+	}
+	return out
+}
+
+// ZZC06FactPos: positions recorded inside facts mean nothing to an importer (each driver/process has its own file set):
+// the importer's diagnostics are the same with the in-process facts and with facts whose positions all coincide.
+func ZZC06FactPos() {
+	files := []nd.File{{Pkg: "zzmod/g1", Name: "g.go", Src: replaceAll(crossSrcTmpl, "«PKG»", "g1")}, {Pkg: "zzmod/g2", Name: "g.go", Src: replaceAll(crossSrcTmpl, "«PKG»", "g2")}, {Pkg: "zzmod/u", Name: "u.go", Src: crossSrcTwo}}
+	prog := nd.LoadProgram(files, nil)
+	cfg := config.Default()
+	r1 := Analyze(prog, cfg, "zzmod/g1", Facts{}, "imm", "ctor", "tonl", "pkgo")
+	r2 := Analyze(prog, cfg, "zzmod/g2", Facts{}, "imm", "ctor", "tonl", "pkgo")
+	pos := token.Pos(nd.Int("collapsed_pos"))
+	nd.Assume(0 <= int(pos))
+	nd.Assume(int(pos) <= 1<<20)
+	fu := "/zz/zzmod/u/u.go"
+	exp := []Expect{
+		{fu, nd.LineOf(crossSrcTwo, "G1-F"), "IMM01", true},
+		{fu, nd.LineOf(crossSrcTwo, "G2-F"), "IMM01", true},
+		{fu, nd.LineOf(crossSrcTwo, "G1-LIT"), "CTOR01", true},
+		{fu, nd.LineOf(crossSrcTwo, "G2-LIT"), "CTOR01", true},
+		{fu, nd.LineOf(crossSrcTwo, "G1-MOCK"), "TONL02", true},
+		{fu, nd.LineOf(crossSrcTwo, "G2-MOCK"), "TONL02", true},
+		{fu, nd.LineOf(crossSrcTwo, "G1-INT"), "PKGO02", true},
+		{fu, nd.LineOf(crossSrcTwo, "G2-INT"), "PKGO02", true},
+	}
+	ru := Analyze(prog, cfg, "zzmod/u", Facts{"zzmod/g1": &r1.Ann, "zzmod/g2": &r2.Ann}, "imm", "ctor", "tonl", "pkgo")
+	CheckExact(ru.Diags, exp, "C06 importer with in-process facts")
+	rc := Analyze(prog, cfg, "zzmod/u", Facts{"zzmod/g1": PosCollapsed(&r1.Ann, pos), "zzmod/g2": PosCollapsed(&r2.Ann, pos)}, "imm", "ctor", "tonl", "pkgo")
+	CheckExact(rc.Diags, exp, "C06 importer with facts whose positions coincide (separate file sets)")
 }
